@@ -124,6 +124,13 @@ class Report(object):
             coverage["states"] = max(self.states, 1)
             coverage["transitions"] = max(self.transitions, 1)
             coverage["traces_validated_against_impl"] = self.traces_validated
+            coverage["states_note"] = (
+                "states = unrolled scheduling steps summed over windows (each symbolic state stands for every "
+                "state reachable by some interleaving of that many steps); transitions = guarded macro-step "
+                "transitions instantiated in the z3 encodings; traces_validated_against_impl = solver witness "
+                "runs (completion twins) replayed statement by statement on the real classes with identical "
+                "observable events"
+            )
         coverage.update(self.extra)
         evidence = {
             "property_id": self.prop,
